@@ -140,3 +140,121 @@ Proof. vm_compute. repeat split; reflexivity. Qed.
 
 Example C11_example_domain : in_domain all_tags (bs "t") ex_g = true /\ locals_exported (bs "t") ex_g = true.
 Proof. vm_compute. split; reflexivity. Qed.
+
+(* ------------------------------------------------------------------------------------------------------------ *)
+(* RenderStack: the tracker and the parser are no longer hypotheses.
+   [the_pick]   = the name C03's repaired tracker (Model/Tracker.v [add true universe_names (Some std_tr)], i.e. with the
+                  universe and the reserved-name table of the current tree, Gen/StdList.v) binds to a new path in the state
+                  the association list stands for;  [parse_c15] = C15's [parse_type_ref true].
+   What is left: [cbq_hyp] (Go's strconv.CanBackquote), the grammar [in_domain], and a well-formed starting table.
+   Model domain of C03's tracker: ASCII import paths (the correspondence check compares non-ASCII paths by predicate only). *)
+Require Import Gengo.Model.RenderStack Gengo.Proofs.RenderStackTracker Gengo.Proofs.RenderStackConcrete.
+
+(* every tracker hypothesis of this file holds of C03's tracker — for EVERY refused-name list and EVERY reserved table —
+   and the parser hypothesis holds of C15's ParseTypeRef *)
+Theorem C11_hypotheses_discharged :
+  (forall pre std, tracker_hyps (pick_c03 pre std) /\ tracker_lower_case (pick_c03 pre std)
+                   /\ ((forall n, is_predeclared n = true -> In n pre) -> tracker_not_predeclared (pick_c03 pre std)))
+  /\ (forall n, is_predeclared n = true -> In n the_pre)
+  /\ parse_hyp parse_c15.
+Proof.
+  exact (conj (fun pre std => conj (tracker_hyps_c03 pre std) (conj (tracker_lower_case_c03 pre std) (tracker_not_predeclared_c03 pre std)))
+              (conj Gengo.Proofs.StdTable.c11_predeclared_in_universe parse_hyp_c15)).
+Qed.
+Print Assumptions C11_hypotheses_discharged.
+
+(* the model's tracker state and C03's record move in lock step: AddType on the list is [add] on the record *)
+Theorem C11_tracker_is_C03 :
+  forall pre std p e,
+    tr_of (tr_add (pick_c03 pre std) p e) = cadd pre std (tr_of e) p
+    /\ Tk.add true pre std (tr_of e) p = Ok (cadd pre std (tr_of e) p)
+    /\ (NoDup (map fst e) -> local_name_of p e = cname (tr_of e) p /\ NoDup (map fst (tr_add (pick_c03 pre std) p e))).
+Proof.
+  exact (fun pre std p e => conj (tr_add_simulation pre std p e) (conj (cadd_ok pre std (tr_of e) p)
+           (fun ND => conj (local_name_simulation p e ND) (tr_add_nodup pre std p e ND)))).
+Qed.
+Print Assumptions C11_tracker_is_C03.
+
+Theorem C11_total_concrete :
+  forall self can_backquote, cbq_hyp can_backquote ->
+  forall x g e,
+    renders x g -> in_domain all_tags self g = true -> tracker_inv self e ->
+    exists a e', ident_frag the_pick parse_c15 self can_backquote true true x e = Ok (a, e').
+Proof. exact c11_total_concrete. Qed.
+Print Assumptions C11_total_concrete.
+
+(* side condition left: no import is called like one of the target package's OWN types occurring in g *)
+Theorem C11_roundtrip_concrete :
+  forall self can_backquote, cbq_hyp can_backquote ->
+  forall x g e a e',
+    renders x g -> in_domain all_tags self g = true -> tracker_inv self e -> no_predeclared_names e ->
+    ident_frag the_pick parse_c15 self can_backquote true true x e = Ok (a, e') ->
+    free_own_names self g e' ->
+    no_predeclared_names e' /\ resolve e' self a = Some (canon g).
+Proof. exact c11_roundtrip_concrete. Qed.
+Print Assumptions C11_roundtrip_concrete.
+
+Theorem C11_imports_exact_concrete :
+  forall self can_backquote, cbq_hyp can_backquote ->
+  forall x g e a e',
+    renders x g -> in_domain all_tags self g = true -> tracker_inv self e ->
+    ident_frag the_pick parse_c15 self can_backquote true true x e = Ok (a, e') ->
+    (exists added, e' = e ++ added) /\ tracker_inv self e'
+    /\ (forall p, In p (map fst e') <-> In p (map fst e) \/ In p (foreign_pkgs self g)).
+Proof. exact c11_imports_exact_concrete. Qed.
+Print Assumptions C11_imports_exact_concrete.
+
+(* from a fresh tracker, with the target package's own types exported: nothing else is asked *)
+Theorem C11_roundtrip_fresh_concrete :
+  forall self can_backquote, cbq_hyp can_backquote ->
+  forall x g a e',
+    renders x g -> in_domain all_tags self g = true -> locals_exported self g = true ->
+    ident_frag the_pick parse_c15 self can_backquote true true x [] = Ok (a, e') ->
+    resolve e' self a = Some (canon g).
+Proof. exact c11_roundtrip_fresh_concrete. Qed.
+Print Assumptions C11_roundtrip_fresh_concrete.
+
+(* non-vacuity, with the real naming: the example of above rendered by the real tracker model and the real parser model.
+   a/o and b/o both want the name o, which x/o already has: a/o -> ao, b/o -> bo. *)
+Example C11_example_concrete :
+  match type_lit the_pick parse_c15 (bs "t") (fun _ => true) true true (view_of ex_g) ex_env with
+  | Ok (a, e') =>
+      print (fun s => s) a = bs "struct {E error" ++ [nl] ++ bs "L ao.List[bo.Item] `json:""l""`" ++ [nl] ++ bs "}"
+      /\ e' = [(bs "x/o", bs "o"); (bs "b/o", bs "bo"); (bs "a/o", bs "ao")]
+      /\ resolve e' (bs "t") a = Some (canon ex_g)
+  | _ => False
+  end.
+Proof. vm_compute. repeat split; reflexivity. Qed.
+
+(* RenderStack: ident.Frag hands to AddType exactly the foreign packages of the type, whatever the tracker state
+   ([idarg_regs]: the paths in call order, read off the argument alone) ... *)
+Require Import Gengo.Proofs.RenderStackLeaves Gengo.Proofs.RenderStack.
+
+Theorem C11_registers_exact :
+  forall self can_backquote, cbq_hyp can_backquote ->
+  forall x g e a e',
+    renders x g -> in_domain all_tags self g = true ->
+    (ident_frag the_pick parse_c15 self can_backquote true true x e = Ok (a, e') ->
+       e' = add_all the_pick (idarg_regs self parse_c15 x) e
+       /\ forall e2, ext e' e2 -> ident_frag the_pick parse_c15 self can_backquote true true x e2 = Ok (a, e2))
+    /\ forall p, In p (idarg_regs self parse_c15 x) <-> In p (foreign_pkgs self g).
+Proof.
+  exact (fun self cbq Hc x g e a e' Hx Hd =>
+           conj (ident_frag_spec the_pick (pick_total the_pre the_std) parse_c15 self cbq true true x e a e')
+                (idarg_regs_exact self cbq Hc x g Hx Hd)).
+Qed.
+Print Assumptions C11_registers_exact.
+
+(* ... and in the generated file: against the table [e'] a writer ends with (C01_file_imports: table_ok, the own package
+   not in it), a type all of whose packages the file imports renders to an expression that leaves the table alone and
+   that, read through THAT import block, denotes the type. *)
+Theorem C11_type_leaf_denotes_in_file :
+  forall self can_backquote, cbq_hyp can_backquote ->
+  forall e' x g,
+    table_ok the_pre e' -> ~ In self (map fst e') ->
+    renders x g -> in_domain all_tags self g = true -> locals_exported self g = true ->
+    (forall p, In p (foreign_pkgs self g) -> In p (map fst e')) ->
+    exists a, ident_frag the_pick parse_c15 self can_backquote true true x e' = Ok (a, e') /\
+              resolve e' self a = Some (canon g).
+Proof. exact type_leaf_denotes. Qed.
+Print Assumptions C11_type_leaf_denotes_in_file.
